@@ -33,6 +33,23 @@ NC == Len(COps) * NL * NL
 D1I(i) == Bin(AOps[i \div (NL * NL) + 1], I, Leaves[(i % (NL * NL)) \div NL + 1], Leaves[(i % NL) + 1])
 D1B(i) == Bin(COps[i \div (NL * NL) + 1], I, Leaves[(i % (NL * NL)) \div NL + 1], Leaves[(i % NL) + 1])
 
+\* operands of && || with and without side effects: bump(x) adds x to the package-level cnt and answers x > 1
+Atoms == <<Bin(">", I, va, IntL(0)), Bin(">", I, vb, IntL(0)), CallE("bump", <<IntL(1)>>), CallE("bump", <<IntL(2)>>), Un("!", CallE("bump", <<IntL(4)>>))>>
+NAt == Len(Atoms)
+LOp(x) == IF x = 0 THEN "&&" ELSE "||"
+And2(o, x, y) == Bin(LOp(o), "bool", x, y)
+\* statement bodies of the op= family: kind of lvalue (1..7), operator (1..5 = AOps, 6 = ++, 7 = --), right operand
+OaRhs == <<vb, IntL(2), IntL(-3)>>
+OaStmt(op, l, r) == IF op <= 5 THEN OpAsg(AOps[op], I, l, r) ELSE Inc(l, IF op = 6 THEN 1 ELSE -1)
+OaBody(kind, op, r) ==
+    CASE kind = 1 -> <<Decl("x", I, va), OaStmt(op, Var("x"), r), Ret(<<Var("x")>>)>>
+      [] kind = 2 -> <<OaStmt(op, va, r), Ret(<<va>>)>>
+      [] kind = 3 -> <<Asg(Var("gv"), va), OaStmt(op, Var("gv"), r), Ret(<<Var("gv")>>)>>
+      [] kind = 4 -> <<Decl("l", "ints", Mk("ints", <<IntL(1), va, IntL(3)>>)), OaStmt(op, Ix("ints", Var("l"), IntL(1)), r), Ret(<<Ix("ints", Var("l"), IntL(1))>>)>>
+      [] kind = 5 -> <<Decl("v", "S", Mk("S", <<va, IntL(2)>>)), OaStmt(op, Fld("S", Var("v"), 1), r), Ret(<<Fld("S", Var("v"), 1)>>)>>
+      [] kind = 6 -> <<Decl("p", "pS", Mk("pS", <<IntL(2), va>>)), OaStmt(op, Fld("pS", Var("p"), 2), r), Ret(<<Fld("pS", Var("p"), 2)>>)>>
+      [] kind = 7 -> <<Decl("m", "mii", Mk("mii", << <<IntL(1), va>> >>)), OaStmt(op, Ix("mii", Var("m"), IntL(1)), r), Ret(<<Ix("mii", Var("m"), IntL(1))>>)>>
+
 \* families as (count, decoder, result type)
 Fam == <<
   [n |-> NA, t |-> I],                          \* 1  depth 1 arithmetic
@@ -43,7 +60,11 @@ Fam == <<
   [n |-> NC, t |-> "bool"],                     \* 6  !(depth 1)
   [n |-> NA, t |-> I],                          \* 7  -(depth 1)
   [n |-> (2 * NC * NC) \div 13, t |-> "bool"],  \* 8  cmp && / || cmp   (stride 13)
-  [n |-> (Len(AOps) * NA * NA) \div 41, t |-> I] \* 9 op(depth1, depth1) (stride 41)
+  [n |-> (Len(AOps) * NA * NA) \div 41, t |-> I], \* 9 op(depth1, depth1) (stride 41)
+  [n |-> 2 * NAt * NAt, t |-> "sc"],             \* 10 X op Y          operands with side effects: short circuit
+  [n |-> 4 * NAt * NAt * NAt, t |-> "sc"],       \* 11 (X op Y) op Z
+  [n |-> 4 * NAt * NAt * NAt, t |-> "sc"],       \* 12 X op (Y op Z)
+  [n |-> 7 * 7 * 3, t |-> "oa"]                  \* 13 op= / ++ / -- on every kind of lvalue
 >>
 ExprOf(f, i) ==
     CASE f = 1 -> D1I(i)
@@ -56,6 +77,12 @@ ExprOf(f, i) ==
       [] f = 8 -> LET j == i * 13 + (Seed % 13) IN
                   Bin(IF j \div (NC * NC) = 0 THEN "&&" ELSE "||", "bool", D1B((j % (NC * NC)) \div NC), D1B(j % NC))
       [] f = 9 -> LET j == i * 41 + (Seed % 41) IN Bin(AOps[j \div (NA * NA) + 1], I, D1I((j % (NA * NA)) \div NA), D1I(j % NA))
+      [] f = 10 -> And2(i \div (NAt * NAt), Atoms[(i % (NAt * NAt)) \div NAt + 1], Atoms[(i % NAt) + 1])
+      [] f = 11 -> LET o == i \div (NAt * NAt * NAt)  r == i % (NAt * NAt * NAt) IN
+                   And2(o % 2, And2(o \div 2, Atoms[r \div (NAt * NAt) + 1], Atoms[(r % (NAt * NAt)) \div NAt + 1]), Atoms[(r % NAt) + 1])
+      [] f = 12 -> LET o == i \div (NAt * NAt * NAt)  r == i % (NAt * NAt * NAt) IN
+                   And2(o % 2, Atoms[r \div (NAt * NAt) + 1], And2(o \div 2, Atoms[(r % (NAt * NAt)) \div NAt + 1], Atoms[(r % NAt) + 1]))
+      [] f = 13 -> [k |-> "oa", kind |-> i \div 21 + 1, op |-> (i % 21) \div 3 + 1, r |-> OaRhs[(i % 3) + 1]]
 
 \* Go evaluates constant sub-expressions at compile time and rejects a constant division by zero
 RECURSIVE HasVar(_), ConstOk(_)
@@ -63,6 +90,7 @@ HasVar(e) == CASE e.k = "var" -> TRUE [] e.k = "bin" -> HasVar(e.l) \/ HasVar(e.
 ConstOk(e) == CASE e.k = "bin" -> /\ ConstOk(e.l) /\ ConstOk(e.r)
                                   /\ (e.op \in {"/", "%"} /\ ~HasVar(e.r)) => EvalE(<<>>, e.r, <<>>, St0).v # 0
                 [] e.k = "un" -> ConstOk(e.e)
+                [] e.k = "oa" -> ~(e.op \in {4, 5} /\ e.r.k = "lit" /\ e.r.v = 0)
                 [] OTHER -> TRUE
 
 ArgsAB == << <<0, 0>>, <<1, -1>>, <<-1, 1>>, <<2, 3>>, <<-7, 2>>, <<7, -2>>, <<5, 5>>, <<-7, -3>> >>
@@ -85,7 +113,17 @@ ExprProg(p) ==
         hi == IF lo + ExprPerProg > KeptE THEN KeptE ELSE lo + ExprPerProg
         items == [j \in 1..(hi - lo) |-> LET fi == FamOf(ExprNo(lo + j - 1), 1) IN [e |-> ExprOf(fi[1], fi[2]), t |-> Fam[fi[1]].t, no |-> ExprNo(lo + j - 1)]]
         ok == SelectSeq(items, LAMBDA it : ConstOk(it.e))
-    IN [prog |-> Prog(<<>>, [j \in 1..Len(ok) |-> Func(FnName(ok[j].no), Pab, <<Prm("", ok[j].t)>>, FALSE, <<Ret(<<ok[j].e>>)>>, TRUE)]),
+        \* the function around the expression: `return e`; for the side-effect family the condition of an if, cnt read afterwards
+        BodyOf(it) == CASE it.t = "sc" -> <<Decl("t", I, IntL(0)), If(it.e, <<Asg(Var("t"), IntL(1))>>, <<>>),
+                                           Ret(<<Bin("+", I, Var("t"), Bin("*", I, Var("cnt"), IntL(10)))>>)>>
+                        [] it.t = "oa" -> OaBody(it.e.kind, it.e.op, it.e.r)
+                        [] OTHER -> <<Ret(<<it.e>>)>>
+        ResOf(it) == IF it.t \in {"sc", "oa"} THEN I ELSE it.t
+        state == \E j \in 1..Len(ok) : ok[j].t \in {"sc", "oa"}
+    IN [prog |-> Prog(IF state THEN <<Glob("cnt", I, IntL(0)), Glob("gv", I, IntL(0))>> ELSE <<>>,
+                      [j \in 1..Len(ok) |-> Func(FnName(ok[j].no), Pab, <<Prm("", ResOf(ok[j]))>>, FALSE, BodyOf(ok[j]), TRUE)]
+                      \o (IF state THEN <<Func("bump", <<Prm("x", I)>>, <<Prm("", "bool")>>, FALSE,
+                                               <<OpAsg("+", I, Var("cnt"), Var("x")), Ret(<<Bin(">", I, Var("x"), IntL(1))>>)>>, FALSE)>> ELSE <<>>)),
         fns |-> [j \in 1..Len(ok) |-> FnName(ok[j].no)]]
 
 RunsOf(prog, fns, argvs) ==
@@ -152,12 +190,25 @@ Fill(f, cx) ==
       [] f = 7 -> <<If(Eq(vn, IntL(3)), <<Panic(StrL(<<120>>))>>, M(16))>>
       [] OTHER -> Skel(f - 7, M(21), M(22), 30, "2")
 
-SkelFn(k, slot, f) ==
+PSk == <<Prm("n", I), Prm("xs", "ints")>>
+\* named = TRUE: the same function with a NAMED result s and a bare return
+SkelFn(k, slot, f, named) ==
     LET sl == SlotsOf(k)
         b1 == IF slot = 1 THEN Fill(f, sl[1]) ELSE M(1)
         b2 == IF slot = 2 THEN Fill(f, sl[2]) ELSE M(2)
-    IN Func("F", <<Prm("n", I), Prm("xs", "ints")>>, <<Prm("", I)>>, FALSE,
-            <<Decl("s", I, IntL(1))>> \o Skel(k, b1, b2, 40, "") \o <<Ret(<<vs>>)>>, TRUE)
+    IN IF named THEN Func("F", PSk, <<Prm("s", I)>>, TRUE, <<Asg(vs, IntL(1))>> \o Skel(k, b1, b2, 40, "") \o <<Ret(<<>>)>>, TRUE)
+       ELSE Func("F", PSk, <<Prm("", I)>>, FALSE, <<Decl("s", I, IntL(1))>> \o Skel(k, b1, b2, 40, "") \o <<Ret(<<vs>>)>>, TRUE)
+\* deferred variants: W runs the skeleton under a deferred call (dv = 0: plain, 1: recovering), its result reads g BEFORE the deferred
+\* call changes it; the entry F reads g afterwards (in a statement of its own: G1)
+DfrFill == <<1, 6, 7>>
+SkelProgD(k, fi, dv) ==
+    LET sl == SlotsOf(k)
+        b1 == Fill(DfrFill[fi], sl[1])
+        d == IF dv = 0 THEN Defer(<<Asg(Var("g"), Bin("+", I, Bin("*", I, Var("g"), IntL(2)), IntL(1)))>>)
+             ELSE Defer(<<IfRec(<<Asg(Var("g"), IntL(100))>>, <<Inc(Var("g"), 1)>>)>>)
+        w == Func("W", PSk, <<Prm("", I)>>, FALSE, <<d, Decl("s", I, IntL(1))>> \o Skel(k, b1, M(2), 40, "") \o <<Ret(<<Bin("+", I, vs, Var("g"))>>)>>, FALSE)
+        f == Func("F", PSk, <<Prm("", I)>>, FALSE, <<Decl("r", I, CallE("W", <<vn, Var("xs")>>)), Ret(<<Bin("+", I, Bin("*", I, Var("r"), IntL(1000)), Var("g"))>>)>>, TRUE)
+    IN Prog(<<Glob("g", I, IntL(3))>>, <<f, w>>)
 \* all (skeleton, slot, filler) triples that are legal, numbered
 SkelCases == LET all == [y \in 1..(NSkel * 2 * NFill) |-> LET x == y - 1 IN <<x \div (2 * NFill) + 1, (x % (2 * NFill)) \div NFill + 1, (x % NFill) + 1>>]
              IN SelectSeq(all, LAMBDA t : t[2] <= Len(SlotsOf(t[1])) /\ FillOk(t[3], SlotsOf(t[1])[t[2]]))
@@ -175,8 +226,12 @@ Next == /\ done = 0
                  /\ (Len(ep.fns) = 0 \/ Emit("e" \o ToString(p), "expr", ep.prog, ep.fns, ArgsAB))
            \/ LET sc == SkelCases IN
               \E x \in {y \in 1..Len(sc) : y % Chunks = chunk - 1} :
-                 LET fn == SkelFn(sc[x][1], sc[x][2], sc[x][3]) IN
+                 LET fn == SkelFn(sc[x][1], sc[x][2], sc[x][3], x % 3 = 0) IN
                  /\ done' = 100000 + x
                  /\ Emit("k" \o ToString(sc[x][1]) \o "_" \o ToString(sc[x][2]) \o "_" \o ToString(sc[x][3]), "skel", Prog(<<>>, <<fn>>), <<"F">>, ArgsSk)
+           \/ \E x \in {y \in 0..(NSkel * 3 * 2 - 1) : y % Chunks = chunk - 1} :
+                 LET k == x \div 6 + 1  fi == (x % 6) \div 2 + 1  dv == x % 2 IN
+                 /\ done' = 200000 + x
+                 /\ Emit("d" \o ToString(k) \o "_" \o ToString(fi) \o "_" \o ToString(dv), "skel", SkelProgD(k, fi, dv), <<"F">>, ArgsSk)
         /\ UNCHANGED chunk
 =============================================================================
